@@ -62,7 +62,9 @@ var maskPacks = []string{"TxSql", "TxSqlParam", "TxDbc"}
 
 // keys that are not the key `password` (near misses included: outside the statement, present as noise)
 var otherKeys = []string{"user", "host", "port", "dbname", "sslmode", "server", "uid", "database", "charset", "timeout",
-	"Password", "PASSWORD", "pwd", "passwd", "password2", "xpassword", "pass word", "user id", "a", "b", "한글", "é"}
+	"Password", "PASSWORD", "pwd", "passwd", "password2", "xpassword", "pass word", "a", "b", "한글", "é",
+	// ADO / ODBC style keys made of two words
+	"user id", "data source", "initial catalog", "integrated security", "connect timeout", "x id"}
 
 // value characters: lower case, digits and punctuation incl. '=' and '#'; never an
 // upper-case letter, so the marker ("MK" + digits) cannot occur by accident.
@@ -124,10 +126,12 @@ func drawMask(t *rapid.T) MaskCase {
 		unstable = false
 		pbt.CountExcluded("masking", 1)
 	}
-	keys := otherKeys
+	// the keys of one connection string come from a small pool, so keys repeat
+	all := otherKeys
 	if unstable {
-		keys = append(append([]string{}, otherKeys...), "İ", "Ⱥ", "\u212a", "İd", "uȺ", "İSTANBUL")
+		all = append(append([]string{}, otherKeys...), "İ", "Ⱥ", "\u212a", "İd", "uȺ", "İSTANBUL")
 	}
+	keys := rapid.SliceOfN(rapid.SampledFrom(all), 1, 4).Draw(t, "keypool")
 	// inside a value the *other* separator may occur in the pure styles
 	extra := ""
 	switch c.Style {
@@ -139,7 +143,7 @@ func drawMask(t *rapid.T) MaskCase {
 	if unstable {
 		extra += unstableChars + unstableChars
 	}
-	n := rapid.IntRange(1, 8).Draw(t, "ntokens")
+	n := rapid.IntRange(1, 9).Draw(t, "ntokens")
 	nPw := rapid.IntRange(1, 2).Draw(t, "npasswords")
 	if nPw > n {
 		nPw = n
@@ -152,9 +156,11 @@ func drawMask(t *rapid.T) MaskCase {
 		var tok Tok
 		switch {
 		case pwAt[i]:
-			marker := fmt.Sprintf("MK%d", rapid.IntRange(100000, 999999).Draw(t, "marker"))
-			for contains(c.Markers, marker) {
-				marker += "0"
+			num := rapid.IntRange(100000, 999999).Draw(t, "marker")
+			marker := fmt.Sprintf("MK%dZ", num)
+			for contains(c.Markers, marker) { // fixed width: no marker is part of another
+				num = 100000 + (num-99999)%900000
+				marker = fmt.Sprintf("MK%dZ", num)
 			}
 			c.Markers = append(c.Markers, marker)
 			tok.K = "password"
@@ -164,6 +170,15 @@ func drawMask(t *rapid.T) MaskCase {
 			}
 			if rapid.IntRange(0, 3).Draw(t, "post") == 0 {
 				post = drawValue(t, "pwpost", extra)
+			}
+			if c.Style == "semi" && rapid.IntRange(0, 2).Draw(t, "words") == 0 {
+				// a pass phrase: the secret is one of several words
+				pre += rapid.SampledFrom([]string{" ", "my ", "a b ", "  "}).Draw(t, "prewords")
+				post = rapid.SampledFrom([]string{"", " x", " ", " tail"}).Draw(t, "postwords") + post
+			}
+			if c.Style == "space" && rapid.IntRange(0, 4).Draw(t, "semis") == 0 {
+				pre += rapid.SampledFrom([]string{";", "a;", ";;"}).Draw(t, "presemi")
+				post = rapid.SampledFrom([]string{"", ";x", ";"}).Draw(t, "postsemi") + post
 			}
 			tok.V = pre + marker + post
 		default:
